@@ -245,6 +245,8 @@ pub struct World<'a> {
     pub bc: Bc,
     /// broadcast destination addresses sent and not yet seen processed (broadcast_received callback)
     pub bc_sent: std::collections::VecDeque<u16>,
+    /// per broadcast sent: the ENABLE / DISABLE_UNSOLICITED effect it has when processed
+    pub bc_effects: std::collections::VecDeque<Option<(bool, [bool; 3])>>,
     pub app_iin: (bool, bool, bool, bool),
     /// expected remaining selection (ids) of the solicited series in progress
     pub series_expect: Option<Vec<u64>>,
@@ -956,6 +958,15 @@ impl<'a> World<'a> {
                 It::C(Ev::BroadcastReceived(_)) => {
                     if let Some(mode) = self.bc_sent.pop_front() {
                         self.bc = Bc::Unreported(mode);
+                    }
+                    // a broadcast ENABLE / DISABLE_UNSOLICITED has no response: it takes effect where the
+                    // outstation reports having processed it
+                    if let Some(Some((enable, set))) = self.bc_effects.pop_front() {
+                        for k in 0..3 {
+                            if set[k] {
+                                self.enabled[k] = enable;
+                            }
+                        }
                     }
                 }
                 It::C(_) => {}
@@ -1811,6 +1822,7 @@ pub async fn scenario(a: &ShardArgs, check: &'static str, profile: &'static str,
         null_confirmed: false,
         bc: Bc::None,
         bc_sent: std::collections::VecDeque::new(),
+        bc_effects: std::collections::VecDeque::new(),
         app_iin: (false, false, false, false),
         series_expect: None,
         last_unsol_seq: None,
@@ -1949,11 +1961,65 @@ pub async fn scenario(a: &ShardArgs, check: &'static str, profile: &'static str,
                 w.out_sol = None;
                 w.series_expect = None;
                 let mode = 0xFFFD + w.r.below(3) as u16;
-                let q = ra::B::request(ra::F_RECORD_CURRENT_TIME, w.r.below(16) as u8).done();
+                let bseq = w.r.below(16) as u8;
+                // which function is broadcast: time record (no effect on the model), restart-bit write (the model
+                // follows the clear_restart_iin callback) or, when no unsolicited response is outstanding,
+                // ENABLE / DISABLE_UNSOLICITED (takes effect when processed: there is no response to wait for)
+                let pick = w.r.below(6);
+                let mut effect: Option<(bool, [bool; 3])> = None;
+                let (q, what) = if pick == 0 {
+                    (
+                        ra::B::request(ra::F_WRITE, bseq)
+                            .range8(80, 1, 7, 7, &[0])
+                            .done(),
+                        "WRITE restart bit".to_string(),
+                    )
+                } else if pick <= 2 && w.cfg.unsolicited && w.out_unsol.is_none() {
+                    let enable = pick == 1;
+                    let mut b = ra::B::request(
+                        if enable {
+                            ra::F_ENABLE_UNSOL
+                        } else {
+                            ra::F_DISABLE_UNSOL
+                        },
+                        bseq,
+                    );
+                    let mut set = [false; 3];
+                    for k in 0..3 {
+                        if w.r.bool() {
+                            set[k] = true;
+                            b = b.all(60, k as u8 + 2);
+                        }
+                    }
+                    effect = Some((enable, set));
+                    out::count("broadcast_enable_disable", 1);
+                    (
+                        b.done(),
+                        format!(
+                            "{} classes {set:?}",
+                            if enable {
+                                "ENABLE_UNSOL"
+                            } else {
+                                "DISABLE_UNSOL"
+                            }
+                        ),
+                    )
+                } else {
+                    (
+                        ra::B::request(ra::F_RECORD_CURRENT_TIME, bseq).done(),
+                        "RECORD_CURRENT_TIME".to_string(),
+                    )
+                };
+                if pick == 0 {
+                    out::count("broadcast_restart_write", 1);
+                }
                 let m = w.cfg.master_addr;
-                w.hist
-                    .push(format!("t={} -> broadcast to {mode:#x}", w.sim.now()));
+                w.hist.push(format!(
+                    "t={} -> broadcast to {mode:#x}: {what}",
+                    w.sim.now()
+                ));
                 w.bc_sent.push_back(mode);
+                w.bc_effects.push_back(effect);
                 w.sim.send_from(m, mode, &q, &[]);
                 let rx = w.idle_collect().await;
                 w.expect_no_sol(rx, None, "broadcast", "C07", "broadcast_answered");
